@@ -7,6 +7,7 @@
   a Go panic (index / slice out of range) is the explicit result `panic`.
 -/
 import GocoinV.Base.Bytes
+import GocoinV.Base.C10_Extra
 import GocoinV.Model.AmountCompress
 import GocoinV.Model.ScriptCompress
 namespace GocoinV.UtxoRec
@@ -75,13 +76,13 @@ def decOutsU : Nat → Bytes → List (Option Out) → Res (List (Option Out))
     else
       let a := vule rest
       let r1 := rest.drop a.2
-      if a.1 ≥ acc.length then .panic
+      if shorter acc (a.1 + 1) then .panic          -- rec.Outs[idx]: idx ≥ len
       else
         let b := vule r1
         let r2 := r1.drop b.2
         let c := vlen r2
         let r3 := r2.drop c.2
-        if c.1 < 0 ∨ c.1.toNat > r3.length then .panic
+        if c.1 < 0 ∨ shorter r3 c.1.toNat then .panic  -- dat[off:off+i]
         else decOutsU f (r3.drop c.1.toNat) (acc.set a.1 (some ⟨b.1, r3.take c.1.toNat⟩))
 
 /-- header shared by all four decoders: (txid, height word, count word, rest) -/
@@ -136,7 +137,7 @@ def scanU (vout : Nat) : Nat → Bytes → Scan
         let c := vlen r2
         let r3 := r2.drop c.2
         if a.1 % 2 ^ 32 == vout then
-          if c.1 < 0 ∨ c.1.toNat > r3.length then .panic else .found b.1 (r3.take c.1.toNat)
+          if c.1 < 0 ∨ shorter r3 c.1.toNat then .panic else .found b.1 (r3.take c.1.toNat)
         else if c.1 < 0 then .hang   -- `off += i` with negative i walks backwards: not modelled
         else scanU vout f (r3.drop c.1.toNat)
 
@@ -196,7 +197,7 @@ def decScrC (K : KeyOps) (r2 : Bytes) : Option (Bytes × Bytes) :=
     if c.1 < 0 then none                                  -- ComprScrLen[negative]
     else
       let l := ScriptCompress.comprScrLen.getD c.1.toNat 0
-      if l > r2.length then none                          -- dat[off:off+i] out of range
+      if shorter r2 l then none                           -- dat[off:off+i] out of range
       else match ScriptCompress.decompress K (r2.take l) with
         | .ok s => some (s, r2.drop l)
         | .nil => some ([], r2.drop l)
@@ -204,7 +205,7 @@ def decScrC (K : KeyOps) (r2 : Bytes) : Option (Bytes × Bytes) :=
   else
     let r3 := r2.drop c.2
     let j := c.1.toNat - 6
-    if j > r3.length then none else some (r3.take j, r3.drop j)
+    if shorter r3 j then none else some (r3.take j, r3.drop j)
 
 def decOutsC (K : KeyOps) : Nat → Bytes → List (Option Out) → Res (List (Option Out))
   | 0, rest, acc => if rest.isEmpty then .ok acc else .hang
@@ -213,7 +214,7 @@ def decOutsC (K : KeyOps) : Nat → Bytes → List (Option Out) → Res (List (O
     else
       let a := vule rest
       let r1 := rest.drop a.2
-      if a.1 ≥ acc.length then .panic
+      if shorter acc (a.1 + 1) then .panic
       else
         let b := vule r1
         let r2 := r1.drop b.2
@@ -307,7 +308,7 @@ def readVLen (b : Bytes) : Option (Nat × Bytes) :=
     if h.toNat < 0xfd then some (h.toNat, t)
     else
       let c := 2 <<< (2 - (0xff - h.toNat))
-      if t.length < c then none else some (leVal (t.take c), t.drop c)
+      if shorter t c then none else some (leVal (t.take c), t.drop c)
 
 /-- the record loop of `NewUnspentDb`: `n` records -/
 def decRecs : Nat → Bytes → Option (List Bytes)
@@ -316,7 +317,7 @@ def decRecs : Nat → Bytes → Option (List Bytes)
     match readVLen b with
     | none => none
     | some (le, r) =>
-      if r.length < le then none
+      if shorter r le then none
       else match decRecs n (r.drop le) with
         | none => none
         | some l => some (r.take le :: l)
